@@ -66,9 +66,19 @@ fn restart(k: KNode) -> KNode {
     KNode { node, persister, seed }
 }
 
+/// The three channel "ids" of the enumeration: 1 and 2 are dbids 1 and 2 of peer A; 3 is dbid 1
+/// of **peer B**, so that two channels that differ only in the peer must get different keys.
+fn peer_and_oid(d: u64) -> ([u8; 33], u64) {
+    if d == 3 {
+        (PublicKey::from_secret_key(&secp(), &sk(210)).serialize(), 1)
+    } else {
+        (PublicKey::from_secret_key(&secp(), &sk(200)).serialize(), d)
+    }
+}
+
 fn chan_id(dbid: u64) -> ChannelId {
-    let peer = PublicKey::from_secret_key(&secp(), &sk(200)).serialize();
-    ChannelId::new_from_peer_id_and_oid(&peer, dbid)
+    let (peer, oid) = peer_and_oid(dbid);
+    ChannelId::new_from_peer_id_and_oid(&peer, oid)
 }
 
 /// everything observable about the keys of channel `dbid`
@@ -189,8 +199,8 @@ pub fn main(tier: Tier) -> i32 {
                                     if r == i {
                                         k = restart(k);
                                     }
-                                    let peer = PublicKey::from_secret_key(&secp(), &sk(200)).serialize();
-                                    if k.node.new_channel(d, &peer, &k.node).is_err() {
+                                    let (peer, oid) = peer_and_oid(d);
+                                    if k.node.new_channel(oid, &peer, &k.node).is_err() {
                                         return Err(format!("new_channel({}) failed", d));
                                     }
                                     if let Some(o) = observe(&k, d) {
